@@ -83,41 +83,17 @@ def run(rep, tier, seed):
         rep.add("C12|anchor-missing|as_usize", "Helpers::as_usize not found", PARSER)
     else:
         hex_prefixes = pestq.literals(rules, "hexvalue")
-        stripped = []
-        lowered = bool(synq.method_calls(as_usize, "to_lowercase") or synq.method_calls(as_usize, "to_ascii_lowercase"))
-        for mc in synq.method_calls(as_usize):
-            if mc["method"] in ("strip_prefix", "trim_start_matches", "starts_with"):
-                for a in mc["args"]:
-                    stripped += synq.str_lits(a)
-        for mac in synq.macros(as_usize):
-            pass
-        for p in hex_prefixes:
+        from . import c12_consume
+        # as_usize interpreted on every class of token text the grammar accepts for an integer (one per hex prefix,
+        # one for "no prefix"): which text reaches from_str_radix, with which radix
+        probs = c12_consume.analyse_converter(tree, hex_prefixes)
+        stripped = hex_prefixes
+        for cls, what in probs or []:
             n["rules"] += 1
-            ok = p in stripped or (lowered and p.lower() in stripped)
-            if not ok:
-                rep.add(f"C12|converter|hex-prefix-not-stripped", f"the grammar accepts the integer prefix {p!r} but "
-                        f"Helpers::as_usize only strips {sorted(set(stripped))}", PARSER + ":as_usize", {"prefix": p})
-        radixes = []
-        for c in synq.calls(as_usize, "from_str_radix"):
-            if len(c["args"]) == 2 and c["args"][1].get("k") == "Lit":
-                radixes.append(int(c["args"][1]["v"]))
-        n["rules"] += 1
-        if sorted(radixes) != [10, 16]:
-            rep.add("C12|converter|radix", f"as_usize converts with radixes {radixes}, expected 16 under the prefix and 10 "
-                    f"otherwise", PARSER + ":as_usize")
-        # the radix-16 call must be the one under the prefix test
-        ifs = synq.find_all(as_usize, lambda x: x.get("k") == "If")
-        for i in ifs:
-            cond_strs = synq.str_lits(i["cond"])
-            if any(s.lower() == "0x" for s in cond_strs):
-                n["rules"] += 1
-                then_r = [int(c["args"][1]["v"]) for c in synq.calls(i["then"], "from_str_radix")
-                          if len(c["args"]) == 2 and c["args"][1].get("k") == "Lit"]
-                else_r = [int(c["args"][1]["v"]) for c in synq.calls(i.get("else", {}), "from_str_radix")
-                          if len(c["args"]) == 2 and c["args"][1].get("k") == "Lit"]
-                if then_r != [16] or else_r != [10]:
-                    rep.add("C12|converter|radix-branch", f"radix under the hex prefix {then_r}, otherwise {else_r}",
-                            PARSER + ":as_usize")
+            kind = "hex-prefix-not-stripped" if "not stripped" in what else ("unmodelled" if what.startswith("unmodelled") else "radix")
+            rep.add(f"C12|converter|{kind}", f"Helpers::as_usize on a token {'starting with ' + repr(cls) if cls else 'without prefix'}: "
+                    f"{what}", PARSER + ":as_usize", {"prefix": cls})
+        n["rules"] += len(hex_prefixes) + 1
         samples.append({"rule": "converter agreement", "grammar_prefixes": hex_prefixes, "stripped": sorted(set(stripped))})
 
     # (c) nothing dropped
